@@ -31,7 +31,7 @@ import os, sys, json, time, hashlib, signal, traceback, tempfile, select, resour
 from . import findings
 
 VERIF = os.path.dirname(os.path.dirname(os.path.abspath(__file__)))
-HANG = float(os.environ.get('VERIF_HANG', '240'))
+HANG = float(os.environ.get('VERIF_HANG', '300'))
 
 
 def jdump(o):
@@ -147,8 +147,10 @@ def _worker(mod, tier, seed, flavour, k, nw, skip, journal, outpath, maxviol):
             if idx % nw != k or idx in skip:
                 continue
             os.write(jfd, b'%d\n' % idx)
+            t0 = time.time()
             r = run_one(mod, case)
             agg.add(case, r)
+            agg.maxerr['slowest_case_wall_s'] = max(agg.maxerr.get('slowest_case_wall_s', 0.0), round(time.time() - t0, 2))
             if len(agg.viol) > maxviol:
                 agg.extra['truncated_after_violations'] = 1
                 break
@@ -211,7 +213,7 @@ def explore(mod, tier, seed, flavour, nworkers=None, maxviol=200):
                 # still running: hang watchdog on journal progress
                 if jl != lastpos:
                     live[k][5] = time.time(); live[k][6] = jl
-                elif time.time() - live[k][5] > HANG:
+                elif time.time() - live[k][5] > HANG * _load_factor():
                     os.kill(pid, signal.SIGKILL)
                     os.waitpid(pid, 0)
                     st = -1000
@@ -243,6 +245,15 @@ def explore(mod, tier, seed, flavour, nworkers=None, maxviol=200):
     shutil.rmtree(tmp, ignore_errors=True)
     agg.total = total
     return agg
+
+
+def _load_factor():
+    """the hang limit is meant for an otherwise idle machine; when other jobs compete for the cores (load average above
+    the number of cores) a case legitimately takes that much longer, so the limit is stretched by the same factor."""
+    try:
+        return max(1.0, min(8.0, os.getloadavg()[0] / float(os.cpu_count() or 1)))
+    except Exception:
+        return 1.0
 
 
 def _journal_last(journal):
